@@ -378,7 +378,7 @@ func (p *wat2cWorker) buildFunc_ins(w io.Writer, fn *ast.Func, stk *valueTypeSta
 		)
 	case token.INS_BR_TABLE:
 		i := i.(ast.Ins_BrTable)
-		assert(len(i.XList) > 1)
+		assert(len(i.XList) >= 1)
 
 		// br-table的行为和br比较相似, 因此不涉及else部分不用担心栈平衡的问题.
 		// 但是每个目标block的返回值必须完全一致
